@@ -109,6 +109,9 @@ func init() {
 									okCall = true
 								case formatOnly[fn]:
 									okCall = true
+								case c.pureScalarFn(fn, 0):
+									// arithmetic on its operands (`blankLinesIn(newlines)`): touches nothing
+									okCall = true
 								}
 							}
 							construct := ord.next(what + ": call " + name)
@@ -344,6 +347,29 @@ func init() {
 									sh := exprShape(info, l)
 									if strings.Contains(sh, canonFieldName(pend)) || strings.Contains(sh, "Meta(") {
 										continue
+									}
+									// a field of a local struct VALUE (`bang := *tok; bang.Text += …`): the
+									// store changes the local copy only
+									root := l
+									direct := true
+									for {
+										if se, ok := ast.Unparen(root).(*ast.SelectorExpr); ok {
+											if tv, ok := info.Types[se.X]; ok {
+												if _, isP := tv.Type.Underlying().(*types.Pointer); isP {
+													direct = false
+												}
+											}
+											root = se.X
+											continue
+										}
+										break
+									}
+									if id, ok := ast.Unparen(root).(*ast.Ident); ok && direct {
+										if v, ok := info.Uses[id].(*types.Var); ok && !v.IsField() && v.Pkg() != nil && v.Parent() != v.Pkg().Scope() {
+											if _, isStruct := v.Type().Underlying().(*types.Struct); isStruct {
+												continue
+											}
+										}
 									}
 									// fields of a Meta value
 									if se, ok := l.(*ast.SelectorExpr); ok {
